@@ -16,6 +16,9 @@ EXPLANATION = (
     "IrValue/IrType diagonals (from_slice, as_vec, From/TryFrom of simple values) map variant X to X. Equality of results over all "
     "scripts is not decided."
 )
+EXPLANATION += (
+    " V6 IrValue's PartialEq (used for IntCmp/FloatCmp Eq and Ne) compares same variants with plain `==` on the payload (IEEE for floats, as fcmp Equal) and diverges otherwise."
+)
 ASSUMPTIONS = [
     "Rust arithmetic on the evaluator's native integers either equals cranelift's wrapping arithmetic or panics (debug overflow checks) - both acceptable for 'agree or stop loudly'",
     "host-call sequences and results over all scripts are not decided statically",
